@@ -40,4 +40,25 @@ def explodePieces (maxArr : Int) (d : Nat) (tail : Bool) : Except Err ExplodeOut
     let last := if explodeReversible || tail || decide (num < d) then [explodeLastIdx num] else []
     .ok ⟨alloc, acc.reverse ++ last⟩
 
+/-! ### add_array (p, r): `res = p->size + r->size`, size check, allocation of `res`, p copied to [0, psize), r to
+    [psize, psize + rsize) -/
+
+structure Fill where
+  alloc : Int
+  writes : List (Int × Int)      -- (first index, count)
+  deriving Repr, DecidableEq
+
+def addArray (maxArr psize rsize : Int) : Except Err Fill :=
+  let res := addArrayRes psize rsize
+  if guard_add_array res maxArr then .error (.lpc msg_add_array)
+  else .ok ⟨res, [(0, psize), (psize, rsize)]⟩
+
+/-! ### implode_string (arr, del): `num` strings of total length `size`, separated by `del` (del_len bytes):
+    new_string (size + (num - 1) * del_len) gives that many bytes + 1 for the NUL; the fill loop writes every string,
+    `del` in front of all but the first, and the NUL. -/
+
+def implode (maxStr size num delLen : Int) : Except Err Fill :=
+  if guard_implode size num delLen maxStr then .error (.lpc msg_implode)
+  else .ok ⟨implodeAlloc size num delLen + 1, [(0, size + (num - 1) * delLen), (size + (num - 1) * delLen, 1)]⟩
+
 end NV.C01
